@@ -49,21 +49,26 @@ PROPS = {
     ),
     'C04': dict(
         title='Adapter lookup returns the most specific applicable registration',
-        contracts=['C04_lookup'], falsifier='C04', modes=['py', 'c'], level='proof',
-        only={'C04_lookup': ['adapter.py:_lookup', 'adapter.py:AdapterLookupBase._uncached_lookup']},
+        contracts=['C04_lookup', 'C04_extendors'], falsifier='C04', modes=['py', 'c'], level='proof',
+        only={'C04_lookup': ['adapter.py:_lookup', 'adapter.py:AdapterLookupBase._uncached_lookup'],
+              'C04_extendors': ['adapter.py:AdapterLookupBase.add_extendor', 'adapter.py:AdapterLookupBase.remove_extendor']},
         level_text='_lookup (the nested first-match search, recursion used through its own contract) and '
                    'AdapterLookupBase._uncached_lookup (walk of the registry resolution order) are verified from their real '
                    'bodies against the recursive "first applicable, position by position, most general provided first" '
-                   'specification for all registry contents, arities and hierarchies. The C twin of _lookup, the extendor '
-                   'ordering (add_extendor) and the cache wrapper are compared with a brute-force ranking bounded (random '
-                   'worlds, both implementations), labelled bounded.',
+                   'specification for all registry contents, arities and hierarchies; add_extendor/remove_extendor are verified to '
+                   'rebuild, for every interface of the provided interface\'s resolution order, exactly the stable partition '
+                   '[more general entries] + [provided] + [the others] (resp. the list without the interface) in fresh lists, '
+                   'touching no other key and no list that existed before. The C twin of _lookup and the cache wrapper are '
+                   'compared with a brute-force ranking bounded (random worlds incl. one key registered for most provided '
+                   'interfaces of a DAG in random order, both implementations), labelled bounded.',
         level_note='Assumes the representation invariant of registries (tree of dicts per order, extendor lists) as '
                    'precondition (established by the mutators, C09), ghost predicate in_tree, _subscribe by assumed contract.',
     ),
     'C07': dict(
         title='subscriptions() returns every applicable subscriber, with multiplicity, in order',
-        contracts=['C04_lookup', 'C09_registry'], falsifier='C07', modes=['py', 'c'], level='other',
+        contracts=['C04_lookup', 'C09_registry', 'C04_extendors'], falsifier='C07', modes=['py', 'c'], level='other',
         only={'C04_lookup': ['adapter.py:_subscriptions'],
+              'C04_extendors': ['adapter.py:AdapterLookupBase.add_extendor', 'adapter.py:AdapterLookupBase.remove_extendor'],
               'C09_registry': ['adapter.py:BaseAdapterRegistry.subscribe', 'adapter.py:BaseAdapterRegistry.unsubscribe',
                                'adapter.py:BaseAdapterRegistry._addValueToLeaf', 'adapter.py:BaseAdapterRegistry._removeValueFromLeaf']},
         level_text='_subscriptions (the nested collector, recursion through its own contract) is verified from its real body: '
@@ -233,10 +238,13 @@ PROPS = {
     ),
     'C11': dict(
         title='Lookups stay memory-safe and atomic when other code mutates the registry',
-        contracts=[], falsifier='C11', modes=['py', 'c'], level='other',
+        contracts=['C04_extendors'], falsifier='C11', modes=['py', 'c'], level='other',
+        only={'C04_extendors': ['adapter.py:AdapterLookupBase.add_extendor', 'adapter.py:AdapterLookupBase.remove_extendor']},
         cfunctions=['_subcache', '_getcache', '_lookup', '_lookup1', '_adapter_hook', '_lookupAll', '_subscriptions', 'IB__adapt__', 'SB_extends', 'SB_providedBy', 'SB_implementedBy'],
         creturns={'_subcache': 'borrowed', '_getcache': 'borrowed'},
-        level_text='The C lookup functions (_subcache, _getcache, _lookup, _lookup1, _adapter_hook, _lookupAll, _subscriptions) and '
+        level_text='Python side: add_extendor/remove_extendor are verified never to mutate a list that existed before the call (the walk of a '
+                   'lookup in progress iterates those lists); every k-th container access of an uncached walk is interrupted by every '
+                   'single mutation kind, bounded. The C lookup functions (_subcache, _getcache, _lookup, _lookup1, _adapter_hook, _lookupAll, _subscriptions) and '
                    'IB__adapt__/SB_extends/SB_providedBy/SB_implementedBy are executed path by path from the clang AST of the real file '
                    'under ownership contracts of the CPython API: on every path no reference borrowed from a mutable container is '
                    'used after a call that can run Python code unless the frame owns it (U), references are balanced at every '
